@@ -52,6 +52,10 @@ CHECKS = {
    technique='symbolic execution of lowered-and-compiled function arrays on z3-symbolic argument values; per-element SMT equivalence with the definition (symbolic substitution, dual-number tangent, identity); spellings compared pairwise',
    text='For 10 functionals (polynomial degree<=3, transcendental, rational, and integrals over a 2-element sample so that replacement inside lowered loops is exercised) and replacement maps including swaps and chains: replace(f, x:g)(A) = f(A with x:=g(A)); linearize and derivative equal the dual-number tangent; factor(f)=f (1e-6 margin); field/dotarg equal their einsum definition - for ALL argument values.  Every documented spelling of an argument specification (dict, string, tuple of strings, list of pairs, Argument values/keys) denotes the same replace and linearize result.',
    note='Wrong shape/dtype rejection is an enumerated list of 9 concrete misuse cases (auxiliary, not a solver claim).  Oracle for tangents of mesh-level functionals falls back to the script generated without simplification/optimisation where the interpreter has no denotation for a node (flagged self-referential).'),
+ 'C09': dict(level='translation_validation', design='4/C09',
+   technique='symbolic execution of the lowered Sample.integral / Sample.bind on z3-symbolic per-element integrand coefficients vs an explicit enumeration of (element, point, weight) from the definition of the sample construction; per-element SMT equivalence (exact, or 1e-9 margin for binary64-folded Gauss weights)',
+   text='For 30 sample constructions (62 thorough): plain gauss/uniform/bezier samples on line, square and triangle meshes, element slices, products over two spaces, unions, take_elements, point subsets, custom indices, nested to depth 2 - integral(f) equals the sum over points of weight times value and eval/bind(f) lists the values at the sample\'s own points in the order getindex advertises, for ALL integrand coefficient values; getindex partitions the point numbering.',
+   note='Declined: exactness of Gauss schemes for polynomials, points inside the element and weights summing to the volume (finite floating point facts about tables, nothing quantified); trimmed mosaics, located samples with weights and Sample.zip (their construction is numeric geometry).  Reference point tables are taken from Reference.getpoints (environment data).  Observed, undocumented: take_elements on a union groups the taken elements by operand; the reference follows that.'),
 }
 
 NOT_APPLICABLE = {
